@@ -25,7 +25,7 @@ PHASES = ('early', 'init', 'start', 'poll', 'shutdown', 'never')
 class C15(Check):
     ID = 'C15'
     TRACE_FILES = ('secnode.py', 'modulebase.py')
-    TIERS = {'quick': {'runs': 4000, 'wall': 70}, 'thorough': {'runs': 300000, 'wall': 800}}
+    TIERS = {'quick': {'runs': 15000, 'wall': 70}, 'thorough': {'runs': 300000, 'wall': 800}}
     MAX_VIRTUAL = 400
     RULE = ('[30 % of the cases shut down in the middle of a read of 0.1..0.7 s] ' 'case = 2..5 modules + attachment edges (acyclic; with probability cyclic / missing target / wrong base '
             'class / optional and empty), first-access phase per edge in {earlyInit, initModule, startModule, poll, '
